@@ -11,14 +11,16 @@ use std::collections::BTreeMap;
 use std::time::Instant;
 
 use fgverif::builder::{self, BuildCase, BuildCheck};
+#[cfg(feature = "async_apis")]
 use fgverif::cases::SingleCase;
 use fgverif::driver::{search, stats_json, Check, Failure, Stats};
-use fgverif::explore::INTR;
 use fgverif::findings::Findings;
+#[cfg(feature = "async_apis")]
 use fgverif::multi::{self, HistoryCase, HistoryCheck, MultiCase, MultiCheck};
-use fgverif::oracle::Violation;
 use fgverif::seq::{self, SeqCase, SeqCheck};
+#[cfg(feature = "async_apis")]
 use fgverif::single::{self, SingleCheck};
+use fgverif::violation::{hash_of, Violation, ASYNC, INTR};
 use fgverif::{c18, model};
 use serde_json::{json, Value};
 
@@ -34,7 +36,9 @@ fn seed() -> u64 {
 }
 
 fn build_name() -> &'static str {
-    if INTR {
+    if !ASYNC {
+        "sync"
+    } else if INTR {
         "intr"
     } else {
         "plain"
@@ -69,7 +73,7 @@ fn write_replay(prop: &str, f: &Failure) -> String {
         "tapes": f.tapes,
         "seed": seed(),
     });
-    let h = single::hash_of(&serde_json::to_string(&f.decoded).unwrap_or_default());
+    let h = hash_of(&serde_json::to_string(&f.decoded).unwrap_or_default());
     let path = format!("{dir}/{prop}-{}-{:016x}.json", build_name(), h);
     std::fs::write(&path, serde_json::to_string_pretty(&body).unwrap()).expect("write replay");
     path
@@ -157,6 +161,7 @@ fn replay_file(prop: &str, path: &str) -> Result<Vec<Violation>, String> {
     let kind = dec.get("kind").and_then(|k| k.as_str()).unwrap_or("");
     let case = dec.get("case").cloned().ok_or("no case")?;
     let out = match kind {
+        #[cfg(feature = "async_apis")]
         "single" => {
             let c: SingleCase = serde_json::from_value(case).map_err(|e| e.to_string())?;
             if !INTR && (c.cfg.strat != fgverif::gen::Strat::NonInterruptible || c.cfg.api.shape == fgverif::gen::Shape::StreamIntr) {
@@ -180,10 +185,12 @@ fn replay_file(prop: &str, path: &str) -> Result<Vec<Violation>, String> {
             let c: SeqCase = serde_json::from_value(case).map_err(|e| e.to_string())?;
             seq::eval_seq(&c).violations
         }
+        #[cfg(feature = "async_apis")]
         "history" => {
             let c: HistoryCase = serde_json::from_value(case).map_err(|e| e.to_string())?;
             multi::eval_history(&c).violations
         }
+        #[cfg(feature = "async_apis")]
         "multi" => {
             let c: MultiCase = serde_json::from_value(case).map_err(|e| e.to_string())?;
             multi::eval_multi(&c, true).0.violations
@@ -238,6 +245,12 @@ fn run_prop(prop: &'static str, thorough: bool) -> Part {
     let known = Findings::load(&verif_dir());
     let workers: u64 = std::env::var("FG_WORKERS").ok().and_then(|s| s.parse().ok()).unwrap_or(if thorough { 16 } else { 8 });
     let cases = std::env::var("FG_CASES").ok().and_then(|s| s.parse().ok()).unwrap_or_else(|| cases_for(prop, thorough));
+    #[cfg(not(feature = "async_apis"))]
+    if SINGLE.contains(&prop) || prop == "C15" || prop == "C20" {
+        eprintln!("{prop} needs fn_graph's async feature: not decided by the sync build");
+        std::process::exit(2);
+    }
+    #[cfg(feature = "async_apis")]
     if SINGLE.contains(&prop) {
         let mut part = Part::new(single::rule_for(prop));
         // exhaustive small-scope tier: every schedule of every option combination on tiny graphs
@@ -273,6 +286,7 @@ fn run_prop(prop: &'static str, thorough: bool) -> Part {
         return part;
     }
     match prop {
+        #[cfg(feature = "async_apis")]
         "C15" => {
             let mut part = Part::new(multi::HISTORY_RULE);
             let check = HistoryCheck::new(thorough);
@@ -280,6 +294,7 @@ fn run_prop(prop: &'static str, thorough: bool) -> Part {
             part.assumptions = vec!["differential oracle: the last run of a history is replayed action by action on a freshly built graph; equality of Start/End/Quiet traces and returned values".into()];
             part
         }
+        #[cfg(feature = "async_apis")]
         "C20" => {
             let mut part = Part::new(multi::MULTI_RULE);
             let check = MultiCheck::new(thorough);
@@ -385,7 +400,7 @@ fn run_prop(prop: &'static str, thorough: bool) -> Part {
                     part.violations.push((v, p));
                 }
             }
-            if (prop == "C11" || prop == "C12" || prop == "C13") && part.violations.is_empty() {
+            if (prop == "C11" || prop == "C13") && part.violations.is_empty() {
                 let t = Instant::now();
                 let bh = builder::build_histories(prop, seed());
                 part.stats.evaluations += bh.instances;
@@ -604,6 +619,7 @@ fn cmd_merge(prop: &str, tier: &str, out: &str, parts: &[String]) -> i32 {
     0
 }
 
+#[cfg(feature = "async_apis")]
 fn cmd_fuzz_seeds(target: &str, prop: &'static str, dir: &str, n: usize) -> i32 {
     use proptest::prelude::RngCore;
     use proptest::test_runner::{RngAlgorithm, TestRng};
@@ -629,6 +645,7 @@ fn cmd_fuzz_seeds(target: &str, prop: &'static str, dir: &str, n: usize) -> i32 
     0
 }
 
+#[cfg(feature = "async_apis")]
 fn cmd_fuzz_replay(target: &str, prop: &'static str, artifact: &str) -> i32 {
     let Ok(data) = std::fs::read(artifact) else {
         eprintln!("cannot read {artifact}");
@@ -669,7 +686,9 @@ fn main() {
         Some("run") if args.len() >= 5 => cmd_run(leak(&args[2]), &args[3], &args[4]),
         Some("replay") if args.len() >= 4 => cmd_replay(&args[2], &args[3]),
         Some("merge") if args.len() >= 6 => cmd_merge(&args[2], &args[3], &args[4], &args[5..]),
+        #[cfg(feature = "async_apis")]
         Some("fuzz-seeds") if args.len() >= 6 => cmd_fuzz_seeds(&args[2], leak(&args[3]), &args[4], args[5].parse().unwrap_or(16)),
+        #[cfg(feature = "async_apis")]
         Some("fuzz-replay") if args.len() >= 5 => cmd_fuzz_replay(&args[2], leak(&args[3]), &args[4]),
         _ => {
             eprintln!("usage: fgcheck run <Cxx> <quick|thorough> <part.json> | replay <Cxx> <file> | merge <Cxx> <tier> <out> <parts..>");
